@@ -21,9 +21,19 @@ var targetBase = netip.MustParseAddr("127.0.12.2")
 const (
 	pacedWait  = time.Second
 	pacedTries = 3
-	stopBound  = time.Second     // Run must return within this after cancel (judged only when natTimeout >= 2*stopBound)
 	evictSlack = 3 * time.Second // a session must be gone natTimeout + evictSlack after its last client datagram
 )
+
+// stopBound: Run must return within this after cancel; judged only when natTimeout >= 2*stopBound.
+// Under the race detector everything is several times slower, so the bound is widened and, with
+// natTimeout <= 5 s, Stop timing is then not judged at all (the race stage looks for races,
+// crashes and leaks).
+var stopBound = func() time.Duration {
+	if raceBuild {
+		return 8 * time.Second
+	}
+	return 2500 * time.Millisecond
+}()
 
 func keyBytes(seed uint64, salt uint64, n int) []byte {
 	r := rand.New(rand.NewPCG(seed, salt))
@@ -67,6 +77,8 @@ type exec struct {
 	nameSlow   string
 	gate       chan struct{}
 	gateOpen   bool
+	hsGate     chan struct{} // SOCKS5 upstream holds UDP ASSOCIATE replies until closed
+	hsHeld     bool
 	stopStream chan struct{}
 	stopFlood  chan struct{}
 	streamOn   bool
@@ -107,6 +119,14 @@ func (x *exec) openGate() {
 	if !x.gateOpen {
 		x.gateOpen = true
 		close(x.gate)
+	}
+}
+
+func (x *exec) releaseHandshakes() {
+	if x.hsHeld {
+		x.hsHeld = false
+		close(x.hsGate)
+		x.up.HoldHandshakes(nil)
 	}
 }
 
@@ -197,7 +217,7 @@ func runPlan(p *plan, workDir string) (out outcome) {
 	}
 	fdBase, _ := udpsvc.FDs()
 
-	w, err := udpsvc.NewWorld(scn, targetBase, 2)
+	w, err := udpsvc.NewWorld(scn, targetBase, 2, false)
 	if err != nil {
 		out.setupErr = err
 		return
@@ -261,6 +281,7 @@ func runPlan(p *plan, workDir string) (out outcome) {
 			x.stopStreams()
 			x.stopFloods()
 			x.openGate()
+			x.releaseHandshakes()
 			if _, ok := svc.Stop(T + 30*time.Second); !ok {
 				out.fatal = true
 			}
@@ -347,6 +368,17 @@ func runPlan(p *plan, workDir string) (out outcome) {
 				}
 			}
 			x.established = true
+			if !last && ph.N*len(x.main) >= 256 {
+				// let the relay and the destinations work the backlog off before anything is judged on
+				// paced traffic again (a Stop right after the burst, i.e. as the last phase, is not delayed)
+				n, stable := len(x.w.Arrivals()), time.Now()
+				udpsvc.WaitFor(4*time.Second, func() bool {
+					if m := len(x.w.Arrivals()); m != n {
+						n, stable = m, time.Now()
+					}
+					return time.Since(stable) > 80*time.Millisecond
+				})
+			}
 		case phStream:
 			x.settled = false
 			if !x.streamOn {
@@ -397,30 +429,36 @@ func runPlan(p *plan, workDir string) (out outcome) {
 		case phPauseShort:
 			time.Sleep(min(T, 2*time.Second) * time.Duration(ph.Pct) / 100)
 		case phKeepAlive:
+			// Every session keeps sending; the relay must not tear an active session down. The relay-side
+			// send of round k happens somewhere between the harness's send (sent[k]) and the arrival of its
+			// echo (done[k]), so the gap between two relay-side sends is at most done[k+1]-sent[k]; the
+			// verdict is only given when that bound stayed well below the NAT timeout (a backlog in the
+			// relay or at the destination after a burst can stretch it, which is not the relay's fault).
 			x.stopStreams()
+			sent := time.Now()
 			x.pacedAll("paced-no-reply", "keepalive start")
 			x.established = true
 			before := x.snapshotFrom()
 			end := time.Now().Add(T * 3 / 2)
 			maxGap := time.Duration(0)
-			lastRound := time.Now()
 			for time.Now().Before(end) {
 				time.Sleep(T / 5)
+				next := time.Now()
 				x.pacedAll("paced-no-reply", "keepalive")
-				if g := time.Since(lastRound); g > maxGap {
+				if g := time.Since(sent); g > maxGap {
 					maxGap = g
 				}
-				lastRound = time.Now()
+				sent = next
 			}
 			after := x.snapshotFrom()
 			if os.Getenv("VERIF_DEBUG") != "" {
 				fmt.Fprintf(os.Stderr, "keepalive: T=%v maxGap=%v before=%v after=%v\n", T, maxGap, before, after)
 			}
-			if maxGap < T*6/10 { // the harness itself kept the gaps well below the timeout
+			if maxGap < T*6/10 {
 				for id, a := range after {
 					if b, ok := before[id]; ok && a != b {
-						x.miss("active-session-evicted", fmt.Sprintf("session %d sent a datagram at least every %v (natTimeout %v) for %v, yet its relay socket changed from %s to %s",
-							id, maxGap.Round(time.Millisecond), T, (T * 3 / 2).Round(time.Millisecond), b, a))
+						x.miss("active-session-evicted", fmt.Sprintf("session %d: consecutive datagrams left the relay at most %v apart (natTimeout %v) for %v, yet its relay socket changed from %s to %s",
+							id, maxGap.Round(time.Millisecond), T, (T*3/2).Round(time.Millisecond), b, a))
 					}
 				}
 				x.label("keepalive-held")
@@ -428,16 +466,29 @@ func runPlan(p *plan, workDir string) (out outcome) {
 				x.label("keepalive-gaps-too-long")
 			}
 		case phExpiry:
+			// Each session sends one paced datagram; the relay extended that session's idle deadline when
+			// it forwarded it, i.e. at some instant between the harness's send (t0) and the echo (t1). One
+			// more datagram is then timed into [t0+T, t1+T+2ms] so that it arrives while the idle
+			// timeout fires / the session is being torn down.
 			x.stopStreams()
-			x.pacedAll("paced-no-reply", "expiry-probe establish")
-			x.established = true
-			tLast := time.Now()
-			// one datagram per session, spread over a few milliseconds around tLast+T
-			time.Sleep(time.Until(tLast.Add(T - 4*time.Millisecond)))
+			x.settled = false
+			var wg sync.WaitGroup
 			for i, c := range x.main {
-				c.Send(c.NextSeq(), x.mainDest[i], 16)
-				time.Sleep(time.Duration(8000/len(x.main)) * time.Microsecond)
+				d := x.mainDest[i]
+				wg.Go(func() {
+					t0 := time.Now()
+					if _, ok, _ := c.Paced(d, 16, pacedWait, 1); !ok {
+						return
+					}
+					t1 := time.Now()
+					span := t1.Sub(t0) + 2*time.Millisecond
+					at := t0.Add(T + span*time.Duration(i%8)/8 + time.Duration(i/8)*span/16)
+					time.Sleep(time.Until(at))
+					c.Send(c.NextSeq(), d, 16)
+				})
 			}
+			wg.Wait()
+			x.established = true
 			time.Sleep(20 * time.Millisecond)
 			x.label("expiry-probe")
 		case phPauseEvict:
@@ -523,6 +574,20 @@ func runPlan(p *plan, workDir string) (out outcome) {
 		case phBlockInit:
 			x.settled = false
 			switch {
+			case p.ClientProto == "socks5" && (!p.EndpointByName || ph.N%2 == 0):
+				// the upstream accepts the TCP connection but holds its UDP ASSOCIATE reply: the
+				// session's client-session creation keeps running (that read is not cancelled by Stop)
+				if !x.hsHeld {
+					x.hsGate = make(chan struct{})
+					x.hsHeld = true
+					x.up.HoldHandshakes(x.hsGate)
+				}
+				for k := 0; k < ph.N; k++ {
+					c := x.nextExtra()
+					c.Send(c.NextSeq(), x.dIP[0], 16)
+				}
+				udpsvc.WaitFor(500*time.Millisecond, func() bool { return x.up.Held() >= int64(ph.N) })
+				x.label("init-blocked:socks5-handshake")
 			case proxy && p.EndpointByName:
 				if !x.gateOpen {
 					udpsvc.SetName(x.nameUp, udpsvc.NameRule{IP: lo, Gate: x.gate})
@@ -545,6 +610,7 @@ func runPlan(p *plan, workDir string) (out outcome) {
 			if !last {
 				// let the blocked sessions complete before the next phase
 				x.openGate()
+				x.releaseHandshakes()
 				udpsvc.SetName(x.nameUp, udpsvc.NameRule{IP: lo})
 				time.Sleep(30 * time.Millisecond)
 			} else {
@@ -557,6 +623,15 @@ func runPlan(p *plan, workDir string) (out outcome) {
 	time.Sleep(time.Duration(p.StopDelayMs) * time.Millisecond)
 	up, down := x.streamOn, x.floodOn
 	gBefore := len(udpsvc.RepoGoroutines())
+	bound := stopBound
+	if x.hsHeld {
+		// scripted in-flight work: the held handshakes complete HandshakeMs after the cancel
+		d := time.Duration(p.HandshakeMs) * time.Millisecond
+		bound += d
+		time.AfterFunc(d, func() { close(x.hsGate); x.up.HoldHandshakes(nil) })
+		x.hsHeld = false
+		x.label("stop-while-handshake-held")
+	}
 	done := svc.StopAsync()
 	stopped = true
 	afterStop := time.NewTimer(100 * time.Millisecond) // generators keep going for a moment after cancel
@@ -568,7 +643,7 @@ func runPlan(p *plan, workDir string) (out outcome) {
 	select {
 	case <-done:
 		returned = true
-	case <-time.After(stopBound):
+	case <-time.After(bound):
 		for _, g := range udpsvc.RepoGoroutines() {
 			if g.HasFrame("relayNatConnToServerConn") && strings.Contains(g.Header, "IO wait") {
 				blocked = append(blocked, g)
@@ -600,9 +675,9 @@ func runPlan(p *plan, workDir string) (out outcome) {
 		case judged && len(blocked) > 0 && D >= T*8/10:
 			fail(sigStopBlocks, "Manager.Run returned %v after cancel with natTimeout %v (bound %v). %v after cancel %d downlink goroutine(s) were parked reading their NAT socket "+
 				"although Stop had forced the read deadline into the past - the uplink re-armed it (uplink traffic at Stop: %v, reply traffic: %v, relay goroutines before Stop: %d):\n%s",
-				D.Round(time.Millisecond), T, stopBound, stopBound, len(blocked), up, down, gBefore, udpsvc.Summaries(blocked))
+				D.Round(time.Millisecond), T, bound, bound, len(blocked), up, down, gBefore, udpsvc.Summaries(blocked))
 		case judged:
-			x.miss("stop-exceeds-bound", fmt.Sprintf("Manager.Run returned %v after cancel (bound %v, natTimeout %v); at the bound:\n%s", D.Round(time.Millisecond), stopBound, T, dump))
+			x.miss("stop-exceeds-bound", fmt.Sprintf("Manager.Run returned %v after cancel (bound %v, natTimeout %v); at the bound:\n%s", D.Round(time.Millisecond), bound, T, dump))
 		default:
 			x.label("stop-slow-unjudged")
 		}
